@@ -535,7 +535,14 @@ func (rc *retainCtx) analyse(fn *ssa.Function, idx int) *retainResult {
 								continue
 							}
 							// append(dst, p...) copies the bytes; append(list, p) keeps the reference
-							variadicSpread := cc.Signature().Variadic() && len(cc.Args) == 2 && types.Identical(cc.Args[0].Type().Underlying(), cc.Args[1].Type().Underlying())
+							// append(dst, p...) copies the elements: harmless for bytes, but elements that
+							// themselves hold a reference (structs with a slice field, slices of slices) keep it
+							variadicSpread := false
+							if sl, ok := cc.Args[1].Type().Underlying().(*types.Slice); ok && cc.Signature().Variadic() && len(cc.Args) == 2 {
+								if _, basic := sl.Elem().Underlying().(*types.Basic); basic {
+									variadicSpread = true
+								}
+							}
 							if _, isStr := cc.Args[1].Type().Underlying().(*types.Basic); isStr {
 								variadicSpread = true
 							}
